@@ -305,7 +305,19 @@ def app_payload(o):
 
 
 def project(script, i, o):
-    return app_payload(o)
+    """What C14 determines of a DNS answer: everything except the TTLs and the header bits AA / TC / RA / Z / RCODE,
+    which the property leaves free (they are zeroed before comparing); other payloads are compared whole."""
+    a = app_payload(o)
+    if a[0] != "R" or len(a) != 3 or a[1] != 17:
+        return a
+    try:
+        m = parse_dns(a[2])
+    except (Short, ValueError):
+        return a
+    if not m["flags"] & 0x8000:
+        return a
+    rrs = tuple((n, t, c, rd) for n, t, c, ttl, rd in m["an"] + m["ns"] + m["ar"])
+    return ("R", 17, "dns", m["id"], m["flags"] & 0xf900, tuple(m["qd"]), len(m["an"]), len(m["ns"]), len(m["ar"]), rrs)
 
 
 def history_monitor(script, outs):
